@@ -201,16 +201,21 @@ def r2_validation(cx, classes):
             cx.require(want <= atoms and not harmful, r, "under HostContext, 'filterable and no filters' alone leads to NoFilterException",
                        construct="raise NoFilterException guarded by %s" % sorted((U(e), p) for e, p, o in g if o != "exit-raise"))
         # the deny checks come before anything is opened/executed in validate itself
-    # _filterable/_filters provenance in both constructors
+    filterable_provenance(cx, sf, "C06.R2")
+
+
+def filterable_provenance(cx, sf, rid):
+    """_filterable is 'any registry point of the datasource is filterable' over dr.get_registry_points (transitive), _filters the look-up for the same datasource,
+    both computed before validate() runs (shared by C06.R2 and C07.R4)."""
     for cname in ("FileProvider", "CommandOutputProvider"):
-        init = sf.func("%s.__init__" % cname, "C06.R2")
+        init = sf.func("%s.__init__" % cname, rid)
         f1 = [a for a in walk_body(init.body) if isinstance(a, ast.Assign) and U(a.targets[0]) == "self._filterable"]
         f2 = [a for a in walk_body(init.body) if isinstance(a, ast.Assign) and U(a.targets[0]) == "self._filters"]
         ok1 = len(f1) == 1 and "s.filterable for s in dr.get_registry_points(self.ds)" in U(f1[0].value) and U(f1[0].value).startswith("any(")
         ok2 = len(f2) == 1 and U(f2[0].value).startswith("filters.get_filters(self.ds")
         vcall = [st for st in init.body if isinstance(st, ast.Expr) and isinstance(st.value, ast.Call) and U(st.value.func) == "self.validate"]
         order = bool(vcall) and all(syn_dominates(a, vcall[0]) for a in f1 + f2)
-        cx.require(ok1 and ok2 and order, init, "%s computes _filterable (any registry point filterable) and _filters (get_filters(ds)) before validate()" % cname,
+        cx.require(ok1 and ok2 and order, init, "%s computes _filterable (any registry point filterable, over the whole dependent tree) and _filters (get_filters(ds)) before validate()" % cname,
                    construct="%s; %s" % (short(f1[0], 90) if f1 else "?", short(f2[0], 70) if f2 else "?"))
 
 
